@@ -110,6 +110,9 @@ func (a *Real64) String() string {
 /* -------------------------------------------------------------------------- */
 // Allocate memory for derivatives of n variables.
 func (a *Real64) Alloc(n, order int) {
+  if order < 0 || order > 2 {
+    panic(fmt.Errorf("order `%d' not supported by this type", order))
+  }
   if a.N != n || a.Order != order {
     a.N = n
     a.Order = order
